@@ -132,8 +132,14 @@ theorem no_lost_update_sum {M : Type} (add : M → M → M) (assoc : ∀ a b c, 
   rw [hc]
   refine List.Perm.foldr_eq' (hp hf) ?_ _
   intro x _ y _ z
-  cases x <;> cases y <;> simp only [lin, incAp]
-  rw [assoc, assoc, comm _ _]
+  cases x with
+  | none => cases y <;> rfl
+  | some a =>
+    cases y with
+    | none => rfl
+    | some b =>
+      show add (add z a) b = add (add z b) a
+      rw [assoc, assoc, comm a b]
 
 /-- READS ARE HELD VALUES.  Every value a load of `X0` returned is a value the cell held, and the held values are exactly
 the prefix folds of the linearised updates (nothing else was ever visible). -/
@@ -309,7 +315,7 @@ theorem bind_respects {U : Type} (bk : Backend) (o : Nat) (c : Call U) (hl : c.l
     c.Respects bk := by
   intro x
   rw [hl, hv]
-  cases bk <;> cases x <;> simp [bindL, bindV, guardOf, guard]
+  cases bk <;> cases x <;> simp [bindL, bindV, guardOf, Spec.Conc.guard]
 
 /-- `inc(a)` on value object `o` -/
 def incCall (bk : Backend) (o a : Nat) : Call (Option Nat) :=
@@ -328,8 +334,18 @@ theorem incCall_good (bk : Backend) (o a : Nat) :
     · exact call_of_generated .mutex MutexValue_inc (by simp [skeletonsOf, mutexSet]) _ _ _
     · exact call_of_generated .mmap MmapedValue_inc (by simp [skeletonsOf, mmapSet]) _ _ _
   · cases bk
-    · exact blindOk_ofSk _ _ _ _ _ (by decide)
-    · exact blindOk_ofSk _ _ _ _ _ (by decide)
+    · refine blindOk_ofSk _ _ _ _ _ ?_
+      intro v hv
+      change v ∈ needBlind (flatList MutexValue_inc) [] at hv
+      have h : needBlind (flatList MutexValue_inc) [] = [] := by decide
+      rw [h] at hv; cases hv
+    · refine blindOk_ofSk _ _ _ _ _ ?_
+      intro v hv
+      change v ∈ needBlind (flatList MmapedValue_inc) [] at hv
+      have h : needBlind (flatList MmapedValue_inc) [] = [.timestamp] := by decide
+      rw [h] at hv
+      simp only [List.mem_cons, List.not_mem_nil, or_false] at hv
+      subst hv; rfl
 
 theorem getCall_good (bk : Backend) (o : Nat) :
     wellLockedCode bk (getCall bk o).bl0 (getCall bk o).code0 = true ∧ (getCall bk o).Respects bk ∧
@@ -381,11 +397,11 @@ def roundRobin (n k : Nat) : List Tid := (List.replicate k (List.range n)).flatt
 and the cell holds 21 = 1+2+3+4+5+6 -/
 example : GoodThreads .mutex incBlind (demoThreads .mutex) := demo_good .mutex
 example : GoodThreads .mmap incBlind (demoThreads .mmap) := demo_good .mmap
-example : finishedB (run (incAp Nat.add) (world (fun _ => 0) (demoThreads .mutex)) (roundRobin 3 12)) = true ∧
-    (run (incAp Nat.add) (world (fun _ => 0) (demoThreads .mutex)) (roundRobin 3 12)).cell (.value, 7) = 21 := by
+example : finishedB (run (incAp Nat.add) (world (fun _ => 0) (demoThreads .mutex)) (roundRobin 3 20)) = true ∧
+    (run (incAp Nat.add) (world (fun _ => 0) (demoThreads .mutex)) (roundRobin 3 20)).cell (.value, 7) = 21 := by
   decide
-example : finishedB (run (incAp Nat.add) (world (fun _ => 0) (demoThreads .mmap)) (roundRobin 3 30)) = true ∧
-    (run (incAp Nat.add) (world (fun _ => 0) (demoThreads .mmap)) (roundRobin 3 30)).cell (.value, 7) = 21 := by
+example : finishedB (run (incAp Nat.add) (world (fun _ => 0) (demoThreads .mmap)) (roundRobin 3 60)) = true ∧
+    (run (incAp Nat.add) (world (fun _ => 0) (demoThreads .mmap)) (roundRobin 3 60)).cell (.value, 7) = 21 := by
   decide
 
 /-! ## The model is not a tidied version of the code: the measured mutations flip `WellLocked`, and the semantics shows the
